@@ -142,6 +142,15 @@ def constructor_rules(ctx, prog):
         ctx.ob("C10.W2", "redirect_init [stream=%s type=%s]" % (stream, typ), "the child's end is " + what + "; the parent is given a "
                "pipe end exactly when the stream is a pipe", ok, detail, nontrivial=True)
     ctx.floor("C10.W2", 21)
+    for stream in ("IN", "OUT", "ERR"):
+        kinds = set()
+        for st, rv in res.exits:
+            if st.mon["case"] == (stream, "PARENT") and rv == fs(0):
+                ct = one(st.mem.get(Cc))
+                kinds.add("parent stream" if isinstance(ct, tuple) and ct[0] == "ext" else "null device")
+        ctx.ob("C10.W2p", "redirect_init [stream=%s type=PARENT]: outcomes" % stream, "redirecting to the parent succeeds both ways: with the "
+               "parent's own stream, and with the null device when the parent has none", kinds == {"parent stream", "null device"},
+               {"successful_outcomes": sorted(kinds)}, nontrivial=True)
     # stream_to_file is exhaustive
     G = prog.fn("stream_to_file")
     rets = {}
